@@ -1,4 +1,5 @@
 import GMModel.Metropolis
+import GMModel.ExchangeMap
 /-
   GMModel.Align — `gaddlemaps/_alignment.py`: `Alignment.align_molecules`, `remove_hydrogens`;
   `components/_residue.py`: `geometric_center`, `move_to`; `components/_components.py`:
@@ -132,8 +133,7 @@ def removeHydrogens {α : Type} (m : Mol α) (restr : List (Int × Int)) :
 section
 variable {α : Type} [Scalar α]
 
-/-- `scipy.spatial.distance.euclidean` -/
-def euclid (p q : V3 α) : α := V3.norm (p - q)
+-- `scipy.spatial.distance.euclidean` is `euclid` from `GMModel.ExchangeMap` (same definition: `‖p − q‖`)
 
 /-- bond lengths of atom `i` from the CURRENT geometry; `none` ↦ `IndexError` -/
 def bondsRow (pos : List (V3 α)) (p : V3 α) : List Nat → Option (List (Nat × α))
